@@ -44,7 +44,9 @@ var keyReads = []string{"key", "item-key"}
 var places = []string{"node", "segment", "active", "global", "segment-upd", "active-upd", "global-upd"}
 
 // what the mutating transaction does next.
-var endings = []string{"rollback", "commit-nothing-written", "commit-unrelated-write", "reading-commit", "nocheck-commit"}
+// "writeback-rollback": the reader additionally WRITES a new value for the item back (UpdateCurrentValue) and then rolls
+// the transaction back: written back but not committed, so later readers must still see the committed value.
+var endings = []string{"rollback", "commit-nothing-written", "commit-unrelated-write", "reading-commit", "nocheck-commit", "writeback-rollback"}
 
 var caches = []string{"warm", "cold"}
 
@@ -234,7 +236,7 @@ func (h kit[TK, TV]) observe() ([]string, error) {
 }
 
 // mutate runs the transaction of the cell: read through c.Read, modify in place, read again after a new
-// Find in the same transaction, then end as c.Ending says. Nothing modified is ever written back.
+// Find in the same transaction, then end as c.Ending says. Nothing modified is ever written back and committed.
 func (h kit[TK, TV]) mutate(c cell) (same []string, applied bool, err error) {
 	tx, err := begin(modeOf(c.Ending))
 	if err != nil {
@@ -313,6 +315,15 @@ func (h kit[TK, TV]) mutate(c cell) (same []string, applied bool, err error) {
 	}
 	switch c.Ending {
 	case "rollback":
+		err = tx.Rollback(ctx)
+	case "writeback-rollback":
+		var ok bool
+		if ok, err = b.Find(ctx, h.keyOf(1), false); err != nil || !ok {
+			return fail(fmt.Errorf("find key 1 for the write-back: %v %v", ok, err))
+		}
+		if ok, err = b.UpdateCurrentValue(ctx, h.mk(1, 9)); err != nil || !ok {
+			return fail(fmt.Errorf("write-back of key 1: %v %v", ok, err))
+		}
 		err = tx.Rollback(ctx)
 	case "commit-unrelated-write":
 		var ok bool
